@@ -584,7 +584,12 @@ class Ref(object):
         self.dev("C12", "miss-emits", "table miss emitted %d frame(s) "
                  "beyond the %d expected" % (len(outs), len(pre)))
       if mdl.ports[port]["config"] & W.PC_NO_PACKET_IN:
-        if self.take_async(W.PACKET_IN):
+        # (packet_ins caused by output:CONTROLLER actions of the same list
+        # are somebody else's: only a table-miss one is wrong here)
+        miss = [d for d in self.async_in if d["type"] == W.PACKET_IN
+                and d["reason"] == W.R_NO_MATCH]
+        if miss:
+          self.async_in = [d for d in self.async_in if d not in miss]
           self.dev("C12", "no-packet-in-ignored", "packet_in sent for a "
                    "port with NO_PACKET_IN")
         return
